@@ -126,7 +126,7 @@ func register(c config) *rux.Router {
 }
 
 func (c config) resPath() string {
-	return model.Normalize(c.outer+model.Normalize(c.basePath+c.resName(), false), false)
+	return model.Normalize(model.Normalize(c.outer, false)+model.Normalize(c.basePath+c.resName(), false), false)
 }
 
 // expected table as a model.Table (so that "GET /res/create -> create, else show" follows from C01's semantics)
@@ -278,7 +278,7 @@ func prop(t *rapid.T) {
 		}
 	}
 	if rapid.IntRange(0, 2).Draw(t, "insideGroup") == 0 {
-		c.outer = rapid.SampledFrom([]string{"/out", "/v1/x", "g"}).Draw(t, "outer")
+		c.outer = rapid.SampledFrom([]string{"/out", "/v1/x", "g", "/", " / "}).Draw(t, "outer")
 		c.outerMw = rapid.IntRange(0, 2).Draw(t, "outerMw")
 		c.outerUse = rapid.IntRange(0, 3).Draw(t, "outerUse")
 	}
